@@ -776,7 +776,12 @@ impl<T: Smp> Inst<T> {
             "ev": opname, "id": id, "via": via, "pre": pre,
             "k": k_partial, "zero_from": zero_from, "supplied": supplied,
             "in_len": win.iter().map(|v| v.len() as i64).collect::<Vec<_>>(),
-            "out_len": wout.iter().map(|v| v.len() as i64).collect::<Vec<_>>(),
+            // the allocating wrappers build their own output: no output shape to get wrong
+            "out_len": if via == "alloc" || via == "vec_alloc" {
+                vec![out_next as i64; nch]
+            } else {
+                wout.iter().map(|v| v.len() as i64).collect::<Vec<_>>()
+            },
             "mask": mask_arg.clone().unwrap_or_default(),
             "has_mask": mask_arg.is_some(),
             "wellformed": gb(op, "wellformed", opname != "bad"),
